@@ -590,6 +590,8 @@ func cacheFamilies() []graphFamily {
 		{"single-doc-cyclic", refgraph.Options{Docs: 1, Defs: 4, Elements: true, Cycles: true, RefP: 0.6}},
 		// documents whose locations differ only by port, by scheme/host, or by letter case
 		{"same-path-twins", refgraph.Options{Docs: 6, Defs: 2, Elements: true, Cycles: true, RefP: 0.6, Spellings: true, Twins: true}},
+		// names that need ~0/~1 and percent escapes in a pointer, nested pointer targets
+		{"nasty-names", refgraph.Options{Docs: 2, Defs: 3, Elements: true, Cycles: true, RefP: 0.6, NastyNames: true, NestedPtrs: true}},
 	}
 }
 
